@@ -143,7 +143,7 @@ def enum_ops(s, *, invalid=True):
             break  # typed move_to is unsupported: one node is enough
     # remove & friends
     for x in nodes:
-        for kc, wc in ((False, False), (True, False), (False, True)):
+        for kc, wc in ((False, False), (True, False), (False, True), (True, True)):
             yield {"op": "remove", "node": x.uid, "keep_children": kc, "with_clones": wc}
         yield {"op": "remove_children", "node": x.uid}
         for key in ("node_id", "data_id", "data"):
